@@ -17,7 +17,9 @@ import (
 // TestC11 drives the REAL keepers: generation 1 surplus / debt auctions (x/auction, through its msg
 // server and BeginBlocker) and generation 2 english auctions + limit bids (x/auctionsV2, through its
 // msg server and BeginBlocker), and dumps after every step all bidder balances, the module
-// balances, the auction record, the limit-bid records and the protocol totals.
+// balances, the auction record, the limit-bid records and the protocol totals.  Limit-bid cases
+// can run Dutch auctions next to the book: the auctionsV2 BeginBlocker then fills limit bids
+// automatically (LimitOrderBid); one "op fill" line per auction closure, then "op block".
 //
 // denom ids in the trace: 0 = uharbor, 1 = ucmst, 2 = uoth.  bidders are 0..nb-1.
 
@@ -37,13 +39,19 @@ func TestC11(t *testing.T) {
 	master := newRng(seed())
 	ncases := envInt("VERIF_CASES", 120)
 	only := envInt("VERIF_CASE", -1)
-	for ci := 0; ci < ncases; ci++ {
+	// corpus: minimised regression inputs of repaired defects always run first (case ids 0..2)
+	for ci := 0; ci < c11NCorpus; ci++ {
+		if only < 0 || only == ci {
+			c11LimitCorpus(t, f, tr, ci)
+		}
+	}
+	for ci := c11NCorpus; ci < ncases+c11NCorpus; ci++ {
 		cs := master.next() // one draw per case: VERIF_CASE replays exactly
 		if only >= 0 && ci != only {
 			continue
 		}
 		r := newRng(cs)
-		switch ci % 8 {
+		switch (ci - c11NCorpus) % 8 {
 		case 0, 5:
 			c11LimitCase(t, f, tr, r, ci)
 		case 1:
@@ -376,168 +384,3 @@ func c11EngCase(t *testing.T, f *c11Fix, tr *tracer, r *rng, ci int, variant str
 	}
 }
 
-// ------------------------------------------------------------------------------------------------
-type c11LKey struct {
-	debt, coll uint64
-	prem       int64
-	who        int
-}
-
-func c11LimitCase(t *testing.T, f *c11Fix, tr *tracer, r *rng, ci int) {
-	a := f.a
-	ctx, _ := f.base.CacheContext()
-	ctx = c11At(ctx, c11T0)
-	nb := 2 + r.intn(4)
-	fees := []string{"0", "0", "0.01", "0.005", "0.1", "0.000001", "1.0"}
-	closing := sdk.MustNewDecFromStr(fees[r.intn(len(fees))])
-	withdrawal := sdk.MustNewDecFromStr(fees[r.intn(len(fees))])
-	f.c11V2Params(ctx, 3600, sdk.MustNewDecFromStr("0.01"), closing, withdrawal)
-	assetDenom := map[uint64]int{f.harbor: 0, f.cmst: 1, f.oth: 2}
-	ids := []uint64{f.harbor, f.cmst, f.oth}
-	for i := 0; i < nb; i++ {
-		for d := 0; d < 3; d++ {
-			amt := r.pickI(10000000, 10000000, 1000000, 5000, 0)
-			if amt > 0 {
-				fund(t, a, ctx, f.bidders[i], sdk.NewCoins(sdk.NewCoin(f.c11Denom(d), sdk.NewInt(amt))))
-			}
-		}
-	}
-	// somebody else's coins in the module account (e.g. auction proceeds)
-	var base [3]sdk.Int
-	for d := 0; d < 3; d++ {
-		base[d] = sdk.NewInt(r.pickI(0, 0, 1000, 5000000))
-		f.c11FundModule(t, ctx, auctionsV2types.ModuleName, sdk.NewCoin(f.c11Denom(d), base[d]))
-	}
-	tr.p("case %d lim %d %s %s 3 %d 0 %d 1 %d 2 %s %s %s", ci, nb, closing.BigInt(), withdrawal.BigInt(), f.harbor, f.cmst, f.oth, base[0], base[1], base[2])
-
-	var keys []c11LKey
-	seen := map[c11LKey]bool{}
-	observe := func() map[c11LKey]sdk.Int {
-		cur := map[c11LKey]sdk.Int{}
-		var sb strings.Builder
-		n := 0
-		for _, k := range keys {
-			rec, found := a.NewaucKeeper.GetUserLimitBidData(ctx, k.debt, k.coll, sdk.NewInt(k.prem), f.bidders[k.who].String())
-			if found {
-				n++
-				di := -1
-				for d := 0; d < 3; d++ {
-					if f.c11Denom(d) == rec.DebtToken.Denom {
-						di = d
-					}
-				}
-				fmt.Fprintf(&sb, " %d %d %d %d %s %d", k.debt, k.coll, k.prem, k.who, rec.DebtToken.Amount, di)
-				cur[k] = rec.DebtToken.Amount
-			}
-		}
-		tots := a.NewaucKeeper.GetAllLimitBidProtocolData(ctx)
-		var tb strings.Builder
-		for _, p := range tots {
-			fmt.Fprintf(&tb, " %d %d %s", p.DebtAssetId, p.CollateralAssetId, p.BidValue)
-		}
-		var bb strings.Builder
-		for d := 0; d < 3; d++ {
-			fmt.Fprintf(&bb, " %s", bal(a, ctx, modAddr(auctionsV2types.ModuleName), f.c11Denom(d)))
-		}
-		for i := 0; i < nb; i++ {
-			for d := 0; d < 3; d++ {
-				fmt.Fprintf(&bb, " %s", bal(a, ctx, f.bidders[i], f.c11Denom(d)))
-			}
-		}
-		tr.p("lobs %d%s %d%s%s", n, sb.String(), len(tots), tb.String(), bb.String())
-		return cur
-	}
-	cur := observe()
-	nops := 8 + r.intn(25)
-	for k := 0; k < nops; k++ {
-		who := r.intn(nb)
-		debt := ids[r.intn(3)]
-		if r.chance(60) {
-			debt = ids[r.intn(2)] // concentrate on two markets
-		}
-		coll := ids[r.intn(3)]
-		if r.chance(70) {
-			coll = f.cmst
-		}
-		prem := r.pickI(5, 5, 5, 9, 0, 30, 31)
-		if r.chance(3) {
-			debt = 99
-		}
-		if r.chance(3) {
-			coll = 98
-		}
-		if r.chance(2) {
-			coll = 0
-		}
-		// prefer keys that exist for cancel / withdraw
-		if len(keys) > 0 && r.chance(85) {
-			kk := keys[r.intn(len(keys))]
-			debt, coll, prem = kk.debt, kk.coll, kk.prem
-			if r.chance(75) {
-				who = kk.who
-			}
-		}
-		key := c11LKey{debt, coll, prem, who}
-		if !seen[key] && prem >= 0 {
-			seen[key] = true
-			keys = append(keys, key)
-		}
-		own, has := cur[key]
-		if !has {
-			own = sdk.ZeroInt()
-		}
-		denomID, okd := assetDenom[debt]
-		if !okd {
-			denomID = r.intn(3)
-		}
-		bidder := f.bidders[who].String()
-		switch x := r.intn(10); {
-		case x < 4: // deposit
-			amt := sdk.NewInt(r.pickI(1000000, 1000000, 1, 2, 999, 3000000, 0, 20000000))
-			d := denomID
-			if r.chance(8) {
-				d = r.intn(3)
-			}
-			msg := &auctionsV2types.MsgDepositLimitBidRequest{CollateralTokenId: coll, DebtTokenId: debt, PremiumDiscount: sdk.NewInt(prem), Bidder: bidder,
-				Amount: sdk.Coin{Denom: f.c11Denom(d), Amount: amt}}
-			cls, _, _ := execMsg(a, ctx, msg)
-			tr.p("op dep %d %d %d %d %d %s %s", who, coll, debt, prem, d, amt, cls)
-		case x < 6: // cancel (also repeated cancels)
-			msg := &auctionsV2types.MsgCancelLimitBidRequest{CollateralTokenId: coll, DebtTokenId: debt, PremiumDiscount: sdk.NewInt(prem), Bidder: bidder}
-			cls, _, _ := execMsg(a, ctx, msg)
-			tr.p("op can %d %d %d %d %s", who, coll, debt, prem, cls)
-		default: // withdraw, including attacker-style amounts and denoms
-			var amt sdk.Int
-			if !own.IsPositive() && r.chance(70) {
-				own = sdk.NewInt(r.pickI(1000000, 3, 500))
-			}
-			switch r.intn(9) {
-			case 0:
-				amt = own
-			case 1:
-				amt = own.Add(sdk.NewInt(1))
-			case 2:
-				amt = own.Sub(sdk.NewInt(1))
-			case 3:
-				amt = own.MulRaw(2).Add(sdk.NewInt(900000))
-			case 4:
-				amt = sdk.ZeroInt()
-			case 5:
-				amt = sdk.NewInt(1)
-			case 6:
-				amt = sdk.NewInt(2900000)
-			default:
-				amt = own.QuoRaw(2)
-			}
-			d := denomID
-			if r.chance(18) {
-				d = r.intn(3) // a denom the module holds for someone else
-			}
-			msg := &auctionsV2types.MsgWithdrawLimitBidRequest{CollateralTokenId: coll, DebtTokenId: debt, PremiumDiscount: sdk.NewInt(prem), Bidder: bidder,
-				Amount: sdk.Coin{Denom: f.c11Denom(d), Amount: amt}}
-			cls, _, _ := execMsg(a, ctx, msg)
-			tr.p("op wd %d %d %d %d %d %s %s", who, coll, debt, prem, d, amt, cls)
-		}
-		cur = observe()
-	}
-}
